@@ -524,3 +524,94 @@ pub fn canon_frames(out: &[u8]) -> Vec<Value> {
     }
     v
 }
+
+
+// ------------------------------------------------------------------ respelling (same JSON, other text)
+
+fn respell_ws(out: &mut Vec<u8>, rng: &mut Rng) {
+    for _ in 0..[0usize, 0, 0, 1, 1, 2][rng.below(6)] {
+        out.push(*rng.pick(&[b' ', b'\t', b'\n', b'\r']));
+    }
+}
+
+fn respell_string(out: &mut Vec<u8>, s: &str, rng: &mut Rng) {
+    out.push(b'"');
+    for c in s.chars() {
+        let plain = serde_json::to_string(&c.to_string()).unwrap();
+        let plain = &plain[1..plain.len() - 1];
+        if c.is_ascii_alphanumeric() && rng.chance(1, 8) {
+            out.extend_from_slice(format!("\\u{:04x}", c as u32).as_bytes());
+        } else if c == '/' && rng.chance(1, 2) {
+            out.extend_from_slice(b"\\/");
+        } else {
+            out.extend_from_slice(plain.as_bytes());
+        }
+    }
+    out.push(b'"');
+}
+
+fn respell_value(out: &mut Vec<u8>, v: &Value, rng: &mut Rng) {
+    match v {
+        Value::Object(m) => {
+            out.push(b'{');
+            let mut keys: Vec<&String> = m.keys().collect();
+            // random member order
+            for i in (1..keys.len()).rev() {
+                keys.swap(i, rng.below(i + 1));
+            }
+            for (i, k) in keys.iter().enumerate() {
+                if i > 0 {
+                    out.push(b',');
+                }
+                respell_ws(out, rng);
+                respell_string(out, k, rng);
+                respell_ws(out, rng);
+                out.push(b':');
+                respell_ws(out, rng);
+                respell_value(out, &m[*k], rng);
+                respell_ws(out, rng);
+            }
+            if keys.is_empty() {
+                respell_ws(out, rng);
+            }
+            out.push(b'}');
+        }
+        Value::Array(a) => {
+            out.push(b'[');
+            for (i, x) in a.iter().enumerate() {
+                if i > 0 {
+                    out.push(b',');
+                }
+                respell_ws(out, rng);
+                respell_value(out, x, rng);
+                respell_ws(out, rng);
+            }
+            out.push(b']');
+        }
+        Value::String(s) => respell_string(out, s, rng),
+        other => out.extend_from_slice(other.to_string().as_bytes()),
+    }
+}
+
+/// The same NUL-framed JSON messages written differently: other member order, blanks / tabs /
+/// line ends between tokens (also before the NUL), `\uXXXX` escapes for plain characters.
+/// Messages that do not parse are copied unchanged.
+pub fn respell_stream(stream: &[u8], rng: &mut Rng) -> Vec<u8> {
+    let mut out = Vec::new();
+    let mut rest = stream;
+    while let Some(p) = rest.iter().position(|b| *b == 0) {
+        let (m, r) = rest.split_at(p);
+        rest = &r[1..];
+        match serde_json::from_slice::<Value>(m) {
+            Ok(v) => {
+                respell_ws(&mut out, rng);
+                respell_value(&mut out, &v, rng);
+                respell_ws(&mut out, rng);
+            }
+            Err(_) => out.extend_from_slice(m),
+        }
+        out.push(0);
+    }
+    out.extend_from_slice(rest);
+    out
+}
